@@ -425,12 +425,31 @@ class simplify_chained_calls(FuncADLNodeTransformer):
         Also, if this is a First() call, then move the call inside it.
         """
         if type(call_node.func) is ast.Lambda:
-            arg_asts = [self.visit(a) for a in call_node.args]
+            # Work out how the arguments bind to the lambda's parameters (positional first,
+            # then by keyword). If they do not bind, leave the call for the backend.
+            param_names = [a.arg for a in call_node.func.args.args]
+            kw_names = [k.arg for k in call_node.keywords]
+            n_pos = len(call_node.args)
+            if (
+                len(set(param_names)) != len(param_names)
+                or n_pos > len(param_names)
+                or len(set(kw_names)) != len(kw_names)
+                or set(kw_names) != set(param_names[n_pos:])
+            ):
+                return self.generic_visit(call_node)
+
+            # Give the parameters fresh names: an argument may mention a name that is the
+            # same as a parameter, and the body may be visited more than once.
+            func = make_args_unique(call_node.func)
+            new_names = dict(zip(param_names, [a.arg for a in func.args.args]))
+            bindings = [
+                (new_names[p_name], self.visit(a)) for p_name, a in zip(param_names, call_node.args)
+            ] + [(new_names[k.arg], self.visit(k.value)) for k in call_node.keywords]
             with stack_frame(self._arg_stack):
-                for a_name, arg in zip(call_node.func.args.args, arg_asts):
-                    self._arg_stack.define_name(a_name.arg, arg)
+                for a_name, arg in bindings:
+                    self._arg_stack.define_name(a_name, arg)
                 # Now, evaluate the expression, and then lift it.
-                return self.visit(call_node.func.body)
+                return self.visit(func.body)
         elif _is_method_call_on_first(call_node):
             return self.select_method_call_on_first(call_node)
         else:
@@ -539,6 +558,12 @@ class simplify_chained_calls(FuncADLNodeTransformer):
     def visit_Name(self, name_node):
         "Do lookup and see if we should translate or not."
         return self._arg_stack.lookup_name(name_node.id, default=name_node)
+
+    def visit_Lambda(self, node: ast.Lambda):
+        """A lambda that is not being called: its parameters get fresh names before the body is
+        visited, so that they neither hide nor capture anything that is substituted into it.
+        """
+        return self.generic_visit(make_args_unique(node))
 
     def visit_Attribute_Of_First(self, first: ast.expr, attr: str):
         """
